@@ -186,6 +186,19 @@ def gen(rng: random.Random, tier: str):
             spec2 = spec_from_shape(shape2)
             for v in range(core.shape_size(shape2)):
                 cases.append(mk_props(spec2, v, tags=("corpus", "wide-tall-last")))
+    # ---- a WIDE parent (70 children, subtrees of different heights among them) and a DEEP chain (120 levels, side leaves)
+    wide_shape = [[] for _ in range(30)] + [[[[]]], [[]], [[[[]], []]]] + [[] for _ in range(37)]
+    def _chain(k):
+        return [] if k == 0 else ([_chain(k - 1), []] if k % 30 == 7 else [_chain(k - 1)])
+    for shape, tg in ((wide_shape, "wide"), (_chain(119), "deep")):
+        spec = spec_from_shape(shape)
+        n = core.shape_size(shape)
+        probe = sorted({0, 1, n // 3, n // 2, n - 2, n - 1, 31, 33, 36})
+        for v in probe:
+            cases.append(mk_props(spec, v, tags=("corpus", tg, "props")))
+        for a in probe[:5]:
+            for b in probe[2:7]:
+                cases.append(mk_goto(spec, a, b, tags=("corpus", tg, "goto")))
     # ---- exhaustive small trees
     nmax = 6 if tier == "quick" else 8
     for shape in core.all_shapes_upto(nmax):
